@@ -42,3 +42,29 @@ pub fn stop() -> Vec<String> {
     log::set_max_level(log::LevelFilter::Off);
     LINES.lock().unwrap().take().unwrap_or_default()
 }
+
+/// The decimal-array form of `needle` as `{:?}` prints a byte slice or `Vec<u8>` holding it: `66, 97, 115` (without the
+/// brackets: the secret may be a part of a longer array).
+pub fn decimal_array(needle: &[u8]) -> String {
+    needle.iter().map(|b| b.to_string()).collect::<Vec<_>>().join(", ")
+}
+
+/// Does `line` show `needle`: verbatim, or as the decimal byte array `{:?}` prints for a byte slice that holds it
+/// (`[66, 97, 115, ...]`; the match must start and end at whole numbers)
+pub fn shows(line: &[u8], needle: &[u8]) -> bool {
+    if needle.is_empty() || line.len() < needle.len() {
+        return false;
+    }
+    if line.windows(needle.len()).any(|w| w == needle) {
+        return true;
+    }
+    let dec = decimal_array(needle).into_bytes();
+    if line.len() < dec.len() {
+        return false;
+    }
+    (0..=line.len() - dec.len()).any(|i| {
+        &line[i..i + dec.len()] == dec.as_slice()
+            && (i == 0 || !line[i - 1].is_ascii_digit())
+            && line.get(i + dec.len()).map_or(true, |c| !c.is_ascii_digit())
+    })
+}
